@@ -9,7 +9,7 @@ VARIANTS = ['asan']
 ISOLATE = True
 
 DECLS = [D('i', 'int', default=1), D('f', 'float', default=0.5), D('s', 'str', default='dflt'), D('l', 'int', F_LIST, default=[1, 2]),
-         D('sec', 'sec', F_MULTI | F_TITLE, sub=[D('x', 'int', default=9)]), D('include', 'func', cbs='I')]
+         D('sec', 'sec', F_MULTI | F_TITLE, sub=[D('x', 'int', default=9)]), D('include', 'func', cbs='I'), D('dep', 'int', core.F_DEPRECATED, 3)]
 
 FILES = {
     'good.conf': 'l = {7, 8}\n',
@@ -22,6 +22,8 @@ FILES = {
     'opencomment.conf': 'i = 4 /* never closed\n',
     'opensq.conf': "s = 'never closed\n",
     'incbad.conf': 'i = 6\ninclude("n1.conf")\n',
+    'spdir/good.conf': 'l = {70, 80}\ns = "from the search path"\n',      # same name as the file in the working directory, other content
+    'spdir2/good.conf': 'l = {90}\ns = "from another search path"\n',
 }
 # a chain that uses every include level there is: any level left occupied by an earlier parse makes it fail
 for _k in range(1, 11):
@@ -50,6 +52,8 @@ EVENTS = {
     'fp-open-sq': ['parse_fp 0 %s' % hx("s = 'abc")],
     'eof-in-list': ['parse_buf 0 %s' % hx('l = {1, 2')],
     # rejected between the '=' of a list and its first accepted value: nothing was stored
+    'dep-parse': ['parse_buf 0 %s' % hx('dep = 1\n')],                          # accepted, with the deprecation notice
+    'include-via-searchpath': ['init? 1 @SID 0', 'add_searchpath 1 %s' % hx('spdir'), 'parse_buf 1 %s' % hx('include("good.conf")\n')],
     'eof-after-eq': ['parse_buf 0 %s' % hx('l =')],
     'stray-after-eq': ['parse_buf 0 %s' % hx('l = }')],
     'range-first-value': ['parse_buf 0 %s' % hx('l = 99999999999999999999\n')],
@@ -64,7 +68,7 @@ EVENTS = {
     'eof-in-call-args': ['parse_buf 0 %s' % hx('include("good.conf", "x"')],
 }
 QUICK_EVENTS = ['bare-open-dq', 'bare-open-comment', 'eof-in-call-args', 'ok', 'open-dq', 'open-sq', 'open-comment', 'bad-escape', 'fail-in-include-1', 'fail-in-include-3', 'self-include', 'int-range',
-                'float-range', 'missing-include', 'reinit', 'second', 'eof-in-section', 'file-open-dq', 'eof-in-list', 'fp-fail-in-include-1', 'fp-fail-in-include-3', 'file-fail-in-include-3', 'eof-after-eq', 'range-first-value']
+                'float-range', 'missing-include', 'reinit', 'second', 'eof-in-section', 'file-open-dq', 'eof-in-list', 'fp-fail-in-include-1', 'fp-fail-in-include-3', 'file-fail-in-include-3', 'eof-after-eq', 'range-first-value', 'dep-parse', 'include-via-searchpath']
 
 # events that are rejected before anything is stored: after a history made of these alone, the history's own context must give
 # the values a fresh context gives for the same probe sequence
@@ -84,7 +88,10 @@ PROBES = [
     'i = 1\n\nl = {1,\n oops}\n',
     'include("n1.conf")\n',
     'include("c1.conf")\n',
+    'dep = 4\ni = 2\n',
+    'include("good.conf")\ni = 3\n',          # (probe 13) parsed into a context that has its own search path, see PROBE_SP
 ]
+PROBE_SP = {13: 'spdir2'}                        # probe -> search directory given to the probe's context (holds another good.conf)
 
 RULE = ('all histories up to length N over %d prior events (accepted parse; parse ending inside "...", \'...\', /*...; lexer errors; failure in an included file at depth 1 and 3 through cfg_parse_buf, cfg_parse_fp and cfg_parse; '
         'self-include to the depth limit; integer/float range failure; missing include; EOF inside a section/list/call; file/stream variants; root free + re-init; second context), '
@@ -95,12 +102,14 @@ RULE = ('all histories up to length N over %d prior events (accepted parse; pars
 
 def prepare_files(d):
     for name, text in FILES.items():
+        os.makedirs(os.path.dirname(os.path.join(d, name)), exist_ok=True)
         with open(os.path.join(d, name), 'w') as f:
             f.write(text)
 
 
 def probe_lines(sid, k, ctx):
-    return ['note probe%d' % k, 'init? %d %d 0' % (ctx, sid), 'parse_buf %d %s' % (ctx, hx(PROBES[k])), 'dump %d' % ctx, 'mon', 'free %d' % ctx]
+    sp = ['add_searchpath %d %s' % (ctx, hx(PROBE_SP[k]))] if k in PROBE_SP else []
+    return ['note probe%d' % k, 'init? %d %d 0' % (ctx, sid)] + sp + ['parse_buf %d %s' % (ctx, hx(PROBES[k])), 'dump %d' % ctx, 'mon', 'free %d' % ctx]
 
 
 def same_order(spec):
@@ -108,8 +117,8 @@ def same_order(spec):
     n = len(PROBES)
     if spec.get('so', 0) == 1:
         first = [4, 5, 0]
-        return first + [k for k in range(n) if k not in first]
-    return list(range(n))
+        return first + [k for k in range(n) if k not in first and k not in PROBE_SP]
+    return [k for k in range(n) if k not in PROBE_SP]
 
 
 def script(spec):
@@ -135,7 +144,7 @@ def script(spec):
         lines += probe_lines(sid, k, 3 if (k == spec['probes'][0] and spec.get('pre', True)) else 2)
     # the same probes into the history's own context: values accumulate there by design, but whether the text is accepted
     # and what is reported must not depend on the aborted parses before it
-    for k in (same_order(spec) if spec['probes'] == list(range(len(PROBES))) else spec['probes']):
+    for k in (same_order(spec) if spec['probes'] == list(range(len(PROBES))) else [k for k in spec['probes'] if k not in PROBE_SP]):
         lines += ['note same%d' % k, 'initq 0 %d 0' % sid, 'parse_buf 0 %s' % hx(PROBES[k]), 'dump 0']
     return '\n'.join(lines).replace('init? ', 'initq ')
 
@@ -170,7 +179,7 @@ def judge(spec, events, death):
     if spec.get('kind') == 'two':
         return judge_two(spec, events, death, v)
     hist = spec['hist']
-    aborted = [h for h in hist if h not in ('ok', 'reinit', 'second')]
+    aborted = [h for h in hist if h not in ('ok', 'reinit', 'second', 'dep-parse', 'include-via-searchpath')]
     g = groups_of(events)
     if death is not None:
         stage = 'history' if 'history-done' not in g else 'probe'
@@ -333,7 +342,7 @@ def make_opts(bindirs, specs=None):
         if death is not None:
             raise core.HarnessError('probe sequence dies in a fresh process: %s' % death['kind'])
         g = groups_of(evs)
-        opts['same_fresh'].append([json.dumps(schema.dump_values_only([e for e in g['same%d' % k] if e.get('ev') == 'dump'][0]['tree']), sort_keys=True) for k in range(len(PROBES))])
+        opts['same_fresh'].append({k: json.dumps(schema.dump_values_only([e for e in g['same%d' % k] if e.get('ev') == 'dump'][0]['tree']), sort_keys=True) for k in range(len(PROBES)) if k not in PROBE_SP})
     opts['solo'] = compute_solo(bindirs['asan'], cwd, specs or [])
     return opts
 
